@@ -50,6 +50,8 @@ ROLES = {
         ("addl $1, %ebp", "BP", "BP"), ("vmovapd %ymm0, (%rax)", "V0 A", ""), ("vmovapd (%rax,%rbx,8), %ymm1", "A B", "V1"),
         ("vmovsd %xmm3, 8(%rsp,%r9,8)", "V3 SP R9", ""), ("addq %r10, %r11", "R10 R11", "R11"), ("vsubpd %zmm17, %zmm18, %zmm19", "V17 V18", "V19"),
         ("movl %r8d, %r9d", "R8", "R9"), ("pxor %xmm4, %xmm4", "", "V4"),
+        # operand-less instructions: only hidden operands
+        ("cltq", "A", "A"), ("cqto", "A", "D"), ("cltd", "A", "D"), ("cwtl", "A", "A"),
     ],
     "aarch64": [
         ("add x1, x2, x3", "g2 g3", "g1"), ("add x2, x2, #8", "g2", "g2"), ("mov x3, x1", "g1", "g3"), ("add w1, w2, w3", "g2 g3", "g1"),
@@ -71,8 +73,28 @@ def role_key(tok, isa):
     return ("r", cls, tok[1:])
 
 
+# condition flags of a few x86 instructions (Intel SDM): (flags read, flags written); checked in addition to the registers
+ARITH = "OF SF ZF AF PF CF"
+FLAGROLES = {
+    "addq %rax, %rbx": ("", ARITH), "addq $8, %rax": ("", ARITH), "addl %ebx, %ecx": ("", ARITH), "addl $1, %ebp": ("", ARITH), "subq %rdx, %rsi": ("", ARITH),
+    "cmpq %rax, %rbx": ("", ARITH), "incq %rbx": ("", "OF SF ZF AF PF"), "decl %edi": ("", "OF SF ZF AF PF"),
+    "movq %rbx, %rcx": ("", ""), "leaq 8(%rax,%rbx,4), %rcx": ("", ""), "vaddpd %xmm0, %xmm1, %xmm2": ("", ""),
+}
+
+
 def check_roles(isa, arch):
     fails = []
+    for line, (frd, fwr) in (FLAGROLES.items() if isa == "x86" else ()):
+        desc = dict(isa=isa, arch=arch, kernel=[line])
+        try:
+            mm, kernel, dg = analyse(isa, arch, [line], True)
+        except Exception as e:
+            fails.append(("roles-crash", f"{line!r}: {e!r}", desc))
+            continue
+        got_r = {x[1] for x in O.reads(kernel[0], isa) if x[0] == "f"}
+        got_w = {x[1] for x in O.writes(kernel[0], isa) if x[0] == "f"}
+        if got_r != set(frd.split()) or got_w != set(fwr.split()):
+            fails.append(("roles-flags", f"{line!r} on {arch}: flags read {sorted(got_r)} / written {sorted(got_w)}, architecturally {sorted(frd.split())} / {sorted(fwr.split())}", desc))
     for line, rd, wr in ROLES[isa]:
         desc = dict(isa=isa, arch=arch, kernel=[line])
         try:
@@ -131,6 +153,19 @@ def c06_kernels(isa):
         for d in (-16, -8, 0, 8, 16, 24):
             out.append(["str x7, [x1, #16]", "add x1, x1, #8", "add x4, x1, #8", f"ldr x8, [x1, #{d}]", f"ldr x10, [x4, #{d}]"])
             out.append(["str x7, [x1, #16]", "add x1, x1, #8", "mov x4, x1", "add x4, x4, #8", f"ldr x8, [x1, #{d}]", f"ldr x10, [x4, #{d}]"])
+        # pointer chasing (the load overwrites its own base), chains of copies, writes to a narrower view, constant bumps
+        # after a pre-/post-indexed store, push/pop
+        for d in (-8, 0, 8, 16):
+            out.append(["str x7, [x1, #8]", f"ldr x1, [x1, #{d}]"])
+            out.append(["str x7, [x1, #8]", "mov x4, x1", "mov x5, x4", f"ldr x8, [x5, #{d}]"])
+            out.append(["str x7, [x1, #8]", "add x4, x1, #8", "mov x5, x4", "sub x6, x5, #8", f"ldr x8, [x6, #{d}]"])
+            out.append(["str x7, [x1, #8]", "add w1, w1, #8", f"ldr x8, [x1, #{d}]"])
+            out.append(["str x7, [x1], #8", "add x1, x1, #8", f"ldr x8, [x1, #{d - 16}]"])
+            out.append(["str x7, [x1, #8]!", "add x1, x1, #8", f"ldr x8, [x1, #{d - 8}]"])
+            out.append(["str x7, [x1, #8]!", "sub x1, x1, #8", f"ldr x8, [x1, #{d}]"])
+        # write-back by a register (not a constant): the base is unknown afterwards, nothing may crash
+        out += [["str q1, [x1]", "ld1 {v0.4s}, [x1], x2", "ldr q3, [x1]"], ["str q1, [x1]", "ld1 {v0.4s}, [x1], x2"]]
+        out += [["str x7, [sp, #-16]!", "ldr x8, [sp], #16"], ["stp x7, x9, [sp, #-16]!", "add x2, x2, #1", "ldp x8, x10, [sp], #16"]]
         out += [["str x7, [x1, #8]", "ldr x8, [x1, #8]", "ldr x9, [x1, #8]", "ldr x10, [x1, #8]"], ["str x7, [x1], #8", "ldr x8, [x1, #-8]"], ["str x7, [x1, #8]!", "ldr x8, [x1]"], ["str x7, [x1], #8", "ldr x8, [x1]"]]
     if isa == "x86":
         for d in (-16, -8, 0, 8, 16, 24):
@@ -141,6 +176,13 @@ def c06_kernels(isa):
                 for bump in ([], ["addq $8, %rax"], ["incq %rbx"], ["movq %rax, %rdx"]):
                     base = "rdx" if bump == ["movq %rax, %rdx"] else "rax"
                     out.append([rmw] + bump + [f"movq {d}(%{base}{idx}), %rdi"])
+        for d in (-8, 0, 8, 16):
+            out.append(["movq %rsi, 8(%rax)", f"movq {d}(%rax), %rax"])
+            out.append(["movq %rsi, 8(%rax,%rbx,8)", f"movq {d}(%rax,%rbx,8), %rbx"])
+            out.append(["movq %rsi, 8(%rax)", "movq %rax, %rcx", "movq %rcx, %rdx", f"movq {d}(%rdx), %rdi"])
+            out.append(["movq %rsi, 8(%rax)", "movq %rax, %rcx", "addq $8, %rcx", "movq %rcx, %rdx", f"movq {d}(%rdx), %rdi"])
+            out.append(["movq %rsi, 8(%rax)", "addl $8, %eax", f"movq {d}(%rax), %rdi"])
+            out.append(["movq %rsi, 8(%rax)", "movl %ecx, %eax", f"movq {d}(%rax), %rdi"])
         out += [["movq %rsi, 8(%rax)", "movq 8(%rax), %rdi", "movq 8(%rax), %r8", "movq 8(%rax), %r9"],
                 ["movq %rsi, (%rax)", "addq $8, %rax", "movq -8(%rax), %rdi", "movq -8(%rax), %r8"]]
     return out
